@@ -45,6 +45,7 @@ def foreign_cases(max_depth):
         "fmt": st.sampled_from(["JSON", "YAML"]),
         "native_dates": st.booleans(),
         "reverse": st.booleans(),
+        "omit_empty": st.booleans(),
         "flow": st.booleans(),
         "via_file": st.booleans(),
         "seed": st.integers(0, 10 ** 6),
@@ -158,7 +159,8 @@ def foreign_body(case):
     spec = S.fill_ids(copy.deepcopy(case["doc"]), case["seed"])
     fmt = case["fmt"]
     native = case["native_dates"] and fmt == "YAML"
-    data = dictfmt.to_dict(spec, native_dates=native, reverse_keys=case["reverse"])
+    data = dictfmt.to_dict(spec, native_dates=native, reverse_keys=case["reverse"],
+                           omit_empty=case.get("omit_empty", False))
     problems = dictfmt.check_layout(json.loads(json.dumps(data, default=str)))
     if problems:
         raise RuntimeError("harness emitter violates its own layout: %r" % problems)
@@ -192,7 +194,8 @@ def foreign_body(case):
             fails.extend(compare(expected, loaded, "dict.foreign_roundtrip"))
     finally:
         env.rm(d)
-    return nontrivial(spec), ["foreign:" + fmt], fails
+    return nontrivial(spec), ["foreign:" + fmt] + (["foreign:empty_child_lists_omitted"]
+                                                   if case.get("omit_empty") else []), fails
 
 
 def plan(tier):
